@@ -257,7 +257,21 @@ func runHNSWHistory(r *rand.Rand, p hnswParams, o hnswOpts, t *Trace) *Case {
 			}
 			efs := []int{0, -1, p.m, 4 * (n + 1), 1, p.efs}
 			ef := efs[r.Intn(len(efs))]
-			s := idx.NewSearch().WithK(k).WithThreshold(thr).WithScoreAggregation(aggs[aggz]).WithCutoff(cutoff).WithEfSearch(ef)
+			s := idx.NewSearch().WithScoreAggregation(aggs[aggz])
+			if r.Intn(8) == 0 { // builder defaults: k 10, no threshold, no cutoff, the index's own efSearch
+				k = 10
+			} else {
+				s = s.WithK(k)
+			}
+			if !(thr == 0 && r.Intn(2) == 0) {
+				s = s.WithThreshold(thr)
+			}
+			if !(cutoff == -1 && r.Intn(2) == 0) {
+				s = s.WithCutoff(cutoff)
+			}
+			if !(ef == 0 && r.Intn(2) == 0) {
+				s = s.WithEfSearch(ef)
+			}
 			if nq > 0 {
 				qc := make([][]float32, nq)
 				for i := range qs {
